@@ -274,13 +274,52 @@ func directOpCallee(p *core.Program, call ssa.CallInstruction, kind, name string
 // canonical terms of the caller at the given call site. A component that is not a plain function of one
 // callee parameter (or a field of a record parameter) yields a "?"-term.
 func keyTermsAtCall(p *core.Program, call ssa.CallInstruction, callee *ssa.Function, op *core.StoreOp) []string {
+	return keyTermsAtCallTB(p, core.NewTermBuilder(p), call, callee, op)
+}
+
+// keyTermsThrough is keyTermsAtCall for an op that `call` performs either directly (accessor call) or one helper
+// level down; in the latter case the helper's parameters are bound to the terms of the actual arguments.
+func keyTermsThrough(p *core.Program, call ssa.CallInstruction, kind, name string) []string {
+	if cal, op := directOpCallee(p, call, kind, name); cal != nil {
+		return keyTermsAtCall(p, call, cal, op)
+	}
+	cs := p.Callees(call)
+	if len(cs) != 1 {
+		return nil
+	}
+	outer := core.NewTermBuilder(p)
 	c := call.Common()
 	var actuals []ssa.Value
 	if c.IsInvoke() {
 		actuals = append(actuals, c.Value)
 	}
 	actuals = append(actuals, c.Args...)
-	tb := core.NewTermBuilder(p)
+	sub := core.NewTermBuilder(p)
+	for i, prm := range cs[0].Params {
+		if i < len(actuals) {
+			sub.Names[prm] = outer.Term(actuals[i])
+		}
+	}
+	var out []string
+	allInstrs(cs[0], func(in ssa.Instruction) {
+		ic, ok := in.(ssa.CallInstruction)
+		if !ok || out != nil {
+			return
+		}
+		if cal, op := directOpCallee(p, ic, kind, name); cal != nil && cal != cs[0] {
+			out = keyTermsAtCallTB(p, sub, ic, cal, op)
+		}
+	})
+	return out
+}
+
+func keyTermsAtCallTB(p *core.Program, tb *core.TermBuilder, call ssa.CallInstruction, callee *ssa.Function, op *core.StoreOp) []string {
+	c := call.Common()
+	var actuals []ssa.Value
+	if c.IsInvoke() {
+		actuals = append(actuals, c.Value)
+	}
+	actuals = append(actuals, c.Args...)
 	var out []string
 	comps := p.KeyComponents(op.Key, op.Instr)
 	if len(comps) == 1 {
